@@ -863,10 +863,20 @@ impl Check {
 			println!("  violation in phase {}: {}", v.phase, v.what);
 			println!("  signature: {}", v.sig);
 			println!("VIOLATION property={} replay={}", self.id, v.replay);
-			std::process::exit(1);
+			exit_now(1);
 		}
-		std::process::exit(0);
+		exit_now(0);
 	}
+}
+
+/// End the process with the verdict without running exit handlers: helper threads of the code under
+/// test (connection pools, runtimes) may still be winding down, and a verdict that has been printed
+/// must not be turned into a crash by them.
+fn exit_now(code: i32) -> ! {
+	use std::io::Write;
+	let _ = std::io::stdout().flush();
+	let _ = std::io::stderr().flush();
+	unsafe { libc::_exit(code) }
 }
 
 fn truncate_value(v: &Value, depth: usize) -> Value {
